@@ -269,11 +269,16 @@ def run(ctx):
                     ws.append((f, stmt_of(nd)))
                 elif isinstance(p, ast.Subscript) and isinstance(p.ctx, (ast.Store, ast.Del)):
                     ws.append((f, stmt_of(nd)))
-    ctx.need("E6", "registry writes", len(ws), 2)
+    ctx.need("E6", "registry writes", len(ws), 1)
+    if not any(f is R.reset for f, _ in ws):
+        ctx.violation("E6", R.reset, "registry-not-emptied-by-reset", "the parser reset does not empty the extension registry: extensions required "
+                      "by a previously parsed script stay loaded", node=R.reset.node,
+                      witness="parse('require \"fileinto\";') then parse('fileinto \"x\";'): the second script is accepted")
     for f, st in ws:
         if f is R.reset:
             v = st.value if isinstance(st, ast.Assign) else None
-            if v is not None and const_value(ctx.program, f, v) in ([], ()):
+            is_clear = isinstance(st, ast.Expr) and isinstance(st.value, ast.Call) and call_name(st.value) == "clear"
+            if is_clear or (v is not None and const_value(ctx.program, f, v) in ([], ())):
                 ctx.holds("E6", "%s empties the registry" % f.qualname)
             else:
                 ctx.violation("E6", f, "reset-not-empty", "the parser reset writes %s to the registry" % norm(st), node=st)
